@@ -123,7 +123,14 @@ def _run_chunk(args):
     for i in idxs:
         rng = gen.rng_for(seed, "oracle", name, i)
         try:
-            r = fn(rng, i, params)
+            from ..impl import Diverged, guarded
+
+            r = guarded(lambda: fn(rng, i, params), seconds=params.get("case_timeout", 90.0))
+        except Diverged:
+            r = {"nontrivial": True, "key": ("hang", i), "meta": {"hang": True},
+                 "violation": {"scenario": {"regenerate": {"oracle": name, "seed": seed, "case": i, "params": {k: v for k, v in params.items() if isinstance(v, (int, str, float, bool))}}},
+                               "clause": "does-not-terminate", "observed": "case still running after the per-case time limit",
+                               "expected": "termination", "signature": f"{name}:does-not-terminate"}}
         except Exception as e:  # an oracle crash is a machinery failure; surface it
             import traceback
 
